@@ -11,6 +11,12 @@ def sha(prefix):
     raise SystemExit("no commit with subject prefix: " + prefix)
 
 FIXED = [
+ ("KF-C03-1", "C03", "C03-flst-announced-size-allocation", "fix: file transfer plugin limits the upfront allocation",
+  "a file-transfer announcement (FLST) with corrupt package count x package size made the plugin panic with 'attempt to multiply with overflow' / 'capacity overflow', request gigabytes for a 128-byte input, or abort the process on a failed terabyte allocation", None),
+ ("KF-C03-2", "C03", "C03-verbose-ctrl-response-short-first-arg", "fix: don't panic on ctrl response msgs",
+  "a control response with the verbose bit set whose first argument is shorter than 4 bytes panicked in lifecycle detection (sw-version sniffing) and in the anonymize plugin (Option::unwrap on get(0..4))", None),
+ ("KF-C03-3", "C03", "C03-logcat-threadtime-before-year-start", "fix: logcat threadtime before the start of the year",
+  "a logcat threadtime line dated before the start of the reference year (e.g. '12-31 23:59:59.999 ...' in a file modified early in the year) overflowed 'recorded_start_time_us + timestamp_us' (negative duration cast to u64)", None),
  ("KF-C18-1", "C18", "C18-payload_from_args-empty-string-or-raw", "fix: payload_from_args writes the length",
   "utils::payload_from_args wrote no u16 length prefix for an empty string/raw argument, so the encoded payload did not decode to the same arguments (a single empty raw value: 4 bytes written, 0 arguments decoded)",
   "replays/examples/C18-payload_from_args-empty-raw.json"),
